@@ -290,6 +290,30 @@ fn walk_doc(text: &str, root: &toml_edit::Item, doc: &DocSpec, out: &mut RunOut)
             Err(p) => out.violate("C14/3", "C14/panic/reparse".into(), format!("re-parsing a key slice panicked: {}", panic_msg(&p))),
         }
     }
+    fn body_of_dotted(text: &str, t: &toml_edit::Table, owner: &std::ops::Range<usize>, path: &mut Vec<PathSeg>, out: &mut RunOut) {
+        for (k, it) in t.iter() {
+            path.push(PathSeg::K(k.to_string()));
+            match it {
+                toml_edit::Item::Value(v) => {
+                    for (what, sp) in [("key", t.key(k).and_then(|k| k.span())), ("value", v.span())] {
+                        if let Some(sp) = sp {
+                            out.stats.inc("oracle.nesting");
+                            if !inside(&sp, owner) {
+                                out.violate(
+                                    "C14/4",
+                                    "C14/child-outside-parent/dotted-entry".into(),
+                                    format!("{what} span {sp:?} at {} (written with a dotted key) is not inside the span {owner:?} of the table whose body it was written in\n--- text ---\n{text}", fmt_path(path)),
+                                );
+                            }
+                        }
+                    }
+                }
+                toml_edit::Item::Table(sub) if sub.is_dotted() => body_of_dotted(text, sub, owner, path, out),
+                _ => {}
+            }
+            path.pop();
+        }
+    }
     fn table(text: &str, t: &toml_edit::Table, path: &mut Vec<PathSeg>, out: &mut RunOut) {
         let tsp = t.span();
         if let Some(sp) = &tsp {
@@ -313,7 +337,14 @@ fn walk_doc(text: &str, root: &toml_edit::Item, doc: &DocSpec, out: &mut RunOut)
                     }
                     value(text, v, path, out)
                 }
-                toml_edit::Item::Table(sub) => table(text, sub, path, out),
+                toml_edit::Item::Table(sub) => {
+                    // entries written through dotted keys live in the body of the nearest table that
+                    // has a header (or the root): their keys and values lie inside that table's span
+                    if let (Some(sp), true, false) = (&tsp, sub.is_dotted(), t.is_dotted()) {
+                        body_of_dotted(text, sub, sp, path, out);
+                    }
+                    table(text, sub, path, out)
+                }
                 toml_edit::Item::ArrayOfTables(a) => {
                     let asp = a.span();
                     match &asp {
@@ -342,6 +373,28 @@ fn walk_doc(text: &str, root: &toml_edit::Item, doc: &DocSpec, out: &mut RunOut)
     if let toml_edit::Item::Table(t) = root {
         let mut path = Vec::new();
         table(text, t, &mut path, out);
+    }
+    // a table the generator wrote with its own [header] reports a span (the documented mechanism:
+    // header start .. end of the last value of its body)
+    for (path, hstart) in &doc.headers {
+        out.stats.inc("oracle.header_table_has_span");
+        match resolve(root, path).map(|n| n.span()) {
+            Some(Some(sp)) => {
+                if !(sp.start <= *hstart && *hstart < sp.end) {
+                    out.violate(
+                        "C14/4",
+                        "C14/header-outside-table-span".into(),
+                        format!("table at {} has span {sp:?} which does not contain its own header at byte {hstart}\n--- text ---\n{text}", fmt_path(path)),
+                    );
+                }
+            }
+            Some(None) => out.violate(
+                "C14/1",
+                "C14/header-table-without-span".into(),
+                format!("table at {} was written with its own header at byte {hstart} but reports no span\n--- text ---\n{text}", fmt_path(path)),
+            ),
+            None => {}
+        }
     }
     // clause 2, independent part: the byte ranges DocGen recorded while writing
     for (path, s, e, is_key) in &doc.spans {
